@@ -88,10 +88,26 @@ SPECIAL = [
 ]
 
 
+def ladder_programs(tier):
+    """size ladders: a constant-size Data of every size up to 130 and selected larger ones (sizes whose decimal spelling
+    repeats a digit, powers of two and their neighbours) inside a run; runs of 4..40 one-byte / two-byte integers"""
+    out = []
+    sizes = list(range(3, 131)) + [200, 222, 255, 256, 257, 300, 333, 999, 1000, 1024, 1110, 1111, 2000, 4095, 4096, 4097, 10000]
+    if tier == 'thorough':
+        sizes += list(range(131, 1200)) + [8191, 8192, 8193, 11111, 65535, 65536]
+    for n in sizes:
+        out.append({'prog': ['a = Int(1)', 'd = Data(%d)' % n, 'z = Int(2)'], 'size': n + 3})
+    for n in list(range(4, 41)) + ([48, 64, 65, 100, 128, 129, 255, 256, 257] if tier == 'thorough' else [64, 65]):
+        out.append({'prog': ['f%d = Int(1)' % i for i in range(n)], 'size': n})
+        out.append({'prog': ['f%d = Int(%d)' % (i, 1 + i % 2) for i in range(n)] + ['t = Data(2)'], 'size': n + n // 2 + 2})
+    return out
+
+
 def decl_specs(tier):
     specs = []
     for sh in shapes(tier):
         specs.append({'shape': sh})
+    specs.extend(ladder_programs(tier))
     for tag, lines, extra in SPECIAL:
         specs.append({'special': tag})
     for lin in LINEAGES:
@@ -112,6 +128,8 @@ def variant_source(spec, opts):
     """module source of the spec with the code-generation options applied to every class"""
     if 'shape' in spec:
         return mk.class_src('K', shape_lines(spec['shape']), opts), 'K'
+    if 'prog' in spec:
+        return mk.class_src('K', spec['prog'], opts), 'K'
     if 'special' in spec:
         for tag, lines, extra in SPECIAL:
             if tag == spec['special']:
@@ -219,15 +237,22 @@ def check_spec(spec, st, tier, only=None):
             inputs = [only['raw']] if 'raw' in only else []
         else:
             syms = [0, 1, 2, 0xff, 0x41]
+            if 'prog' in spec:
+                # a ladder program: its exact encoding (a position-revealing pattern), one byte less, one byte more, a short one
+                n = spec['size']
+                pat = bytes((i * 7 + 1) % 251 for i in range(n + 1))
+                inputs = [pat[:n], pat[:n - 1], pat, pat[:2], b'\xff' * n]
+                syms = None
             L = 3 if tier == 'quick' else 5
             if tier == 'thorough' and ('names' in spec or len(spec.get('shape', '')) >= 3):
                 L = 4       # longer declarations: the long ramp inputs below reach their later fields
-            if 'names' in spec:
+            if syms is not None and 'names' in spec:
                 P = alphabet.make_decl(spec['names'], spec.get('opts'), spec.get('wrapper', 'a'))
                 syms = alphabet.byte_alphabet(P, common.SEED)[:5]
-            inputs = list(alphabet.all_strings(syms, L))
+            if syms is not None:
+                inputs = list(alphabet.all_strings(syms, L))
             # longer inputs for wide runs: ramp extensions of the all-zero / all-one strings
-            for fill in (0, 1, 0xff):
+            for fill in ((0, 1, 0xff) if syms is not None else ()):
                 for n in range(L + 1, 17):
                     inputs.append(bytes([fill]) * 2 + ea.RAMP[:n - 2])
             # small control prefixes (counts, lengths, markers) followed by a ramp: the later fields of longer declarations
